@@ -59,7 +59,7 @@ impl Prop for P {
         let mut it = rest.split(';');
         let ops = parse_ops(it.next().unwrap().trim());
         let qs: Vec<u64> = it.next().unwrap().trim().split(' ').filter(|s| !s.is_empty()).map(|s| s.parse().unwrap()).collect();
-        let out = exec_build("extend", "raw_loop", 0, 10_000, 2, &ops);
+        let out = exec_build("extend", "raw_loop", 0, drows(), dcols(), &ops);
         let f = Fst::new(out.bytes.unwrap()).unwrap();
         let mut x = String::from("ok");
         let mut res = vec![];
